@@ -138,6 +138,8 @@ def same(a, b):
     """equality of canonical values with floats compared to the printed precision (6 significant digits: half a unit of the sixth digit is up to 5e-6 of the value)"""
     if isinstance(a, tuple) and isinstance(b, tuple) and a[0] == b[0]:
         if a[0] == "f":
+            if a[1] != a[1] or b[1] != b[1]:
+                return a[1] != a[1] and b[1] != b[1]          # NaN is saved in a form that restores as NaN: equal to itself here
             return a[1] == b[1] or abs(a[1] - b[1]) <= 6e-6 * max(abs(a[1]), abs(b[1]))
         if a[0] in ("a", "c"):
             return len(a[1]) == len(b[1]) and all(same(x, y) for x, y in zip(a[1], b[1]))
